@@ -46,7 +46,7 @@ ASSUMPTIONS = [
     "document them as intended (test_responseWithoutQuotes, test_md5DefaultAlgorithm, test_caseInsensitiveAlgorithm)",
 ]
 MIN = {"quick": {"evaluations": 300000, "nontrivial": 150000, "outcomes": 8},
-       "thorough": {"evaluations": 800000, "nontrivial": 150000, "outcomes": 8}}
+       "thorough": {"evaluations": 700000, "nontrivial": 450000, "outcomes": 8}}
 
 REALM = b"test realm"
 USER = b"user"
@@ -221,8 +221,8 @@ def build_variants(ctx):
     add(Variant("layout:all-quoted", "layout:all-quoted", [], INTACT, post=allq))
 
     def noq(r):
-        r.quoted = {f: False for f in FIELDS}
-        # a comma cannot appear in an unquoted value
+        # every value that is a token goes unquoted; a value with a space, comma or quote has to stay quoted
+        r.quoted = {f: (r.fields[f] is not None and any(c in r.fields[f] for c in b' ,"')) for f in FIELDS}
     add(Variant("layout:all-unquoted", "layout:all-unquoted", ["uri"], INTACT, pre=lambda r: r.hash.update(uri=URI_PLAIN), post=noq))
     add(Variant("layout:no-space", "layout:no-space", [], INTACT, post=lambda r: setattr(r, "sep", b",")))
     add(Variant("layout:folded", "layout:folded", [], INTACT, post=lambda r: setattr(r, "sep", b",\r\n   ")))
@@ -558,7 +558,14 @@ def judge(ctx, variants, pw_used, host, singles=None):
             should = False
         if accepted and not should:
             if expect == REJECT:
-                why = NONCANON if _respelled(r) else "+".join(sorted({v.cls for v in variants if v.expect == REJECT}))
+                rej = [v for v in variants if v.expect == REJECT]
+                if singles is not None and len(variants) > 1:
+                    # a mutation that is already accepted on its own explains the pair
+                    k = 1 if pw_checked == PW_R else 2
+                    alone = [v for v in rej if singles.get((v.tag, pw_used), ("",))[0] == "checked"
+                             and singles[(v.tag, pw_used)][k]]
+                    rej = alone[:1] or rej
+                why = NONCANON if _respelled(r) else "+".join(sorted({v.cls for v in rej}))
             elif not ctx["valid"]:
                 why = ctx["why_invalid"]
             else:
